@@ -403,6 +403,36 @@ impl CommitHandler for ExternalManifestCommitHandler {
             .map_err(|_| CommitError::CommitConflict {});
 
         if let Err(err) = res {
+            // An error from the external store does not prove that the put was not
+            // applied (e.g. the response was lost). If the slot now holds our staging
+            // path we won the commit and must not delete the staging manifest: the
+            // external store would point to a missing object and the version could
+            // neither be read nor repaired.
+            match self
+                .external_manifest_store
+                .get(base_path.as_ref(), manifest.version)
+                .await
+            {
+                Ok(committed_path) if committed_path == staging_path.as_ref() => {
+                    return Ok(self
+                        .finalize_manifest(
+                            base_path,
+                            &staging_path,
+                            manifest.version,
+                            write_res.size as u64,
+                            write_res.e_tag,
+                            &object_store.inner,
+                            naming_scheme,
+                        )
+                        .await?);
+                }
+                // Another manifest holds the slot, or nothing was registered.
+                Ok(_) | Err(Error::NotFound { .. }) => {}
+                // Outcome unknown: keep the staging manifest so that an entry that
+                // may have been registered never dangles.
+                Err(e) => return Err(CommitError::OtherError(e)),
+            }
+
             // delete the staging manifest
             match object_store.inner.delete(&staging_path).await {
                 Ok(_) => {}
